@@ -1,6 +1,6 @@
 """C11 — Persistent stores recover every acknowledged write after a crash (DESIGN.md §2 C11)."""
 from .. import access
-from ..cfg import search, witness_str, elem_dominates
+from ..cfg import search, witness_str, elem_dominates, dominated_by_edge
 from ..expr import show, walk, last, field_of, strip_wrappers, strip_casts, short, const_value, access_path
 from ..facts import AnalysisBroken
 from ..predabs import Vocab, PredAbs, A, Not, And, Or, T, F
@@ -8,7 +8,7 @@ from ..rules import common
 from ..window import Window, lin, form, show_form
 
 TITLE = "Persistent stores recover every acknowledged write after a crash"
-TECHNIQUE = 'custom static analysis over clang-14 CFG facts: closed set of file-mutating call sites with constant open modes, ordering chains by dominance/search, cursor-window abstract interpretation of the log decoder'
+TECHNIQUE = 'custom static analysis over clang-14 CFG facts: closed set of file-mutating call sites with constant open modes, ordering chains by dominance/search, cursor-window abstract interpretation of the log decoder; protocol steps are judged with their same-class helpers expanded in place (parameters read as the arguments of the call, boolean helpers tied to the branch they decide)'
 KV = "iora::storage::KVStore"
 JS = "iora::storage::JsonFileStore"
 KVF, JSF = "iora/storage/kvstore.hpp", "iora/storage/json_file_store.hpp"
@@ -21,7 +21,7 @@ EXPLANATION = (
     "its open mode (the snapshot and the JSON store are only ever rename destinations; the log is opened for append, truncated only after a "
     "successful snapshot rename, cut only in load()); R2 every public mutator returns normally only after writeLogEntry for its change "
     "(ghost atoms dirty/logged), and writeLogEntry itself writes three checked pieces, throws on failure and flushes; R3 the compaction "
-    "chain temp(trunc) ≺ writes ≺ flush+good ≺ stream closed ≺ rename ≺ error test ≺ log truncation ≺ reopen; R4 compaction runs under the "
+    "chain temp(trunc) ≺ writes ≺ flush+good ≺ stream closed ≺ rename ≺ error test ≺ log truncation ≺ reopen, and nothing but that rename touches the snapshot path (no unlink in front of it); R4 compaction runs under the "
     "exclusive store mutex from survivor computation to log reset; R5 the log-record decoder never reads outside the record (cursor-window "
     "abstract interpretation with symbolic lengths, each length bounded by a constant first); R6 the torn tail is cut back to the end of the "
     "last completely read record on every path from the replay loop to the append-mode open; R7 whole-file stores are written to a temp "
@@ -30,65 +30,452 @@ NOT_DECIDED = ["what survives in the OS cache (the property's own model assumpti
                "the admissible-state oracle itself"]
 
 
+# ------------------------------------------------------------------ following calls into helpers of the same class
+#
+# The crash-consistency argument is about the SEQUENCE of file operations a protocol step (compactLocked, load, saveToFile, …)
+# performs.  Whether an operation is written in the step's own body or in a private helper the step calls makes no difference to
+# that sequence, so the ordering rules below run over a *view* of the step: its CFG with every call to a member function of the
+# same class expanded in place (the call element stays as a marker, the callee's blocks follow it, the callee's normal exits
+# continue behind the call; a callee's `throw` leaves the view).  Elements remember the frame they were expanded in, so a
+# helper's parameter is read as the caller's argument (`vresolve`).  A call whose value IS the condition of a branch
+# (`if (!recordIntact(buf, n)) continue;`) is expanded with the correlation kept: each `return <expr>` of the callee branches on
+# <expr> straight to the caller's two successors (`return false` goes only to the false successor), which is what makes a guard
+# clause inside a boolean helper visible as a guard of the caller's path.
+
+class Frame:
+    __slots__ = ("fn", "parent", "call", "args", "depth")
+
+    def __init__(self, fn, parent, call, args):
+        self.fn, self.parent, self.call, self.args = fn, parent, call, args
+        self.depth = 0 if parent is None else parent.depth + 1
+
+    def chain(self):
+        fr, out = self, []
+        while fr is not None:
+            out.append(fr.fn)
+            fr = fr.parent
+        return out
+
+
+class VElem:
+    __slots__ = ("kind", "node", "block", "idx", "try_id", "catch_id", "raw", "fn", "orig", "frame")
+
+    def __init__(self, orig, block, frame):
+        self.orig, self.block, self.frame = orig, block, frame
+        self.kind, self.node, self.raw, self.fn = orig.kind, orig.node, orig.raw, orig.fn
+        self.try_id, self.catch_id = 0, orig.catch_id      # views are searched without exception edges (eh=False)
+        self.idx = len(block.elems)
+
+    @property
+    def line(self):
+        return self.orig.line
+
+    def __repr__(self):
+        return "<v%s %s>" % ("" if self.frame.parent is None else "@" + last(self.frame.fn.name), repr(self.orig))
+
+
+class VBlock:
+    __slots__ = ("id", "elems", "succs", "preds", "term", "label", "raw", "fn", "eh_succs", "eh_preds", "orig", "frame", "_cond")
+
+    def __init__(self, view, bid, orig, frame):
+        self.fn, self.id, self.orig, self.frame = view, bid, orig, frame
+        self.elems, self.succs, self.preds, self.eh_succs, self.eh_preds = [], [], [], [], []
+        self.term, self.label, self.raw, self._cond = None, None, {}, None
+
+    @property
+    def cond(self):
+        if self._cond is not None:
+            return self._cond
+        if self.term is not None and self.orig is not None and not self.term.get("synthetic"):
+            return self.orig.cond
+        return None
+
+    def edge_label(self, i):
+        t = self.term
+        if not t:
+            return None
+        if t["k"] in ("IfStmt", "WhileStmt", "ForStmt", "DoStmt", "ConditionalOperator", "BinaryOperator", "CXXForRangeStmt", "BinaryConditionalOperator") and len(self.succs) == 2:
+            return (True, False)[i]
+        if t["k"] == "SwitchStmt":
+            sid = self.succs[i]
+            if sid is None:
+                return None
+            lab = self.fn.blocks[sid].label
+            return ("case", lab["v"]) if lab and lab["k"] == "case" else "default"
+        return None
+
+
+def _neg_strip(n):
+    """(operand, odd number of `!` removed?)"""
+    n, odd = strip_casts(n), False
+    while n is not None and n.get("k") == "un" and n.get("op") == "!" and isinstance(n.get("v"), dict):
+        n, odd = strip_casts(n["v"]), not odd
+    return n, odd
+
+
+class View:
+    """CFG of `root` with the calls to member functions of its own class expanded (see above).  Offers what cfg.search /
+    cfg.dominators / window.Window read from a Function; always use eh=False on it."""
+    MAXDEPTH, MAXBLOCKS = 5, 6000
+
+    def __init__(self, fb, root, follow=None):
+        self.fb, self.root, self.follow = fb, root, follow
+        self.name, self.file, self.line, self.endline, self.params, self.cls, self.kind, self.sig = root.name, root.file, root.line, root.endline, root.params, root.cls, root.kind, root.sig
+        self.blocks, self.trys, self.try_dispatch, self.frames, self.expanded, self.joined_bool = {}, {}, {}, [], [], []
+        self.ok = True
+        self.root_frame = Frame(root, None, None, None)
+        x = self._new(None, self.root_frame)
+        self.exit = x.id
+        self.entry = self._instantiate(self.root_frame, ("goto", self.exit))
+        for b in self.blocks.values():
+            for s in b.succs:
+                if s is not None and b.id not in self.blocks[s].preds:
+                    self.blocks[s].preds.append(b.id)
+
+    def _new(self, orig, frame):
+        if len(self.blocks) > self.MAXBLOCKS:
+            raise AnalysisBroken("%s: the expansion of helper calls grows beyond %d blocks" % (short(self.root.name), self.MAXBLOCKS))
+        b = VBlock(self, len(self.blocks), orig, frame)
+        self.blocks[b.id] = b
+        return b
+
+    def _callee(self, e, frame):
+        if e.kind != "stmt":
+            return None
+        n = e.node
+        k = n.get("k")
+        cls = self.root.cls
+        if not cls or k not in ("mcall", "call") or not (n.get("callee") or "").startswith(cls + "::"):
+            return None
+        if k == "mcall" and (n.get("obj") or {}).get("k") != "this":
+            return None         # another object of the same class: its fields are not this store's
+        cands = [g for g in self.fb.by_name.get(n["callee"], []) if g.ok and g.cls == cls and g.kind == "method" and len(g.params) == len(n.get("args", []))]
+        if len({(g.file, g.line) for g in cands}) != 1:
+            return None
+        g = cands[0]
+        if g in frame.chain() or frame.depth >= self.MAXDEPTH or (self.follow is not None and not self.follow(g)):
+            return None
+        return g
+
+    def _instantiate(self, frame, cont):
+        fn = frame.fn
+        self.frames.append(frame)
+        pieces, cuts = {}, {}
+        for ob in fn.blocks.values():
+            if ob.id == fn.exit:
+                continue
+            cs = [(e.idx, g) for e in ob.elems for g in [self._callee(e, frame)] if g is not None]
+            cuts[ob.id] = cs
+            ps = [self._new(ob, frame) for _ in range(len(cs) + 1)]
+            pieces[ob.id] = ps
+            k = 0
+            for e in ob.elems:
+                ve = VElem(e, ps[k], frame)
+                ps[k].elems.append(ve)
+                if k < len(cs) and cs[k][0] == e.idx:
+                    k += 1
+            ps[0].label = ob.label
+            ps[-1].term, ps[-1].raw = ob.term, ob.raw
+
+        def exit_target(ob):
+            """where a normal exit of the callee out of block `ob` continues"""
+            if cont[0] == "goto":
+                return cont[1]
+            rets = [e for e in ob.elems if e.kind == "stmt" and e.node.get("k") == "ret" and "root" in e.raw]
+            v = rets[-1].node.get("v") if rets else None
+            if v is None:
+                raise AnalysisBroken("%s: a branch is decided by the value of %s, which has a return without a value" % (short(self.root.name), short(fn.name)))
+            op, odd = _neg_strip(v)
+            t, f_ = (cont[2], cont[1]) if odd else (cont[1], cont[2])
+            cv = const_value(op)
+            if cv is not None and op.get("k") in ("bool", "int"):
+                return t if cv else f_
+            sb = self._new(ob, frame)       # the caller's branch, decided by this return's value
+            sb.term, sb._cond, sb.succs = {"k": "IfStmt", "synthetic": True, "l": rets[-1].line}, op, [t, f_]
+            return sb.id
+
+        def target(ob, sid):
+            if sid is None:
+                return None
+            return exit_target(ob) if sid == fn.exit else pieces[sid][0].id
+
+        for ob in fn.blocks.values():
+            if ob.id == fn.exit:
+                continue
+            ps, cs = pieces[ob.id], cuts[ob.id]
+            throws = any(e.kind == "stmt" and e.node.get("k") == "throw" and "root" in e.raw for e in ob.elems)
+            corr = self._correlated(ob, cs, frame, cont) if cs else None
+            for k, (idx, g) in enumerate(cs):
+                call = ps[k].elems[-1]
+                sub = Frame(g, frame, call, call.node.get("args", []))
+                self.expanded.append((call, g))
+                if k == len(cs) - 1 and corr is not None:
+                    st, sf = corr
+                    c = ("branch",) + tuple(x[1] if isinstance(x, tuple) else target(ob, x) for x in (st, sf))
+                    ps[k].succs = [self._instantiate(sub, c)]
+                    ps[k + 1].elems, ps[k + 1].term, ps[k + 1].raw = [], None, {}      # decided inside the callee: this piece is never reached
+                else:
+                    if (g.raw.get("ret") or "").strip() in ("bool", "_Bool"):
+                        self.joined_bool.append((call, g))      # a boolean helper whose result the view cannot tie to a branch: what it checked is lost at the join
+                    ps[k].succs = [self._instantiate(sub, ("goto", ps[k + 1].id))]
+            if corr is not None:
+                continue
+            if frame.parent is not None and (throws or ob.raw.get("noreturn")):
+                ps[-1].succs = []       # the exception leaves the helper: no normal continuation in the caller
+            else:
+                ps[-1].succs = [target(ob, s) for s in ob.succs]
+        return pieces[fn.entry][0].id
+
+    def _correlated(self, ob, cs, frame, cont):
+        """the last expanded call of block `ob` IS the value the block branches on (or returns into a caller's branch): the two
+        continuations (block ids of this function, or ('abs', view block id)) for the call returning true / false, else None"""
+        idx, g = cs[-1]
+        call = ob.elems[idx]
+        rest = ob.elems[idx + 1:]
+        named = None        # `const bool ok = helper(…); if (!ok) …`: the local stands for the call's value
+        for e in rest:
+            if e.kind != "stmt":
+                return None
+            n = e.node
+            if n.get("k") == "decl" and named is None and len(n["vars"]) == 1 and (n["vars"][0].get("t") or "").strip() in ("const bool", "bool const") and n["vars"][0].get("init") is call.node:
+                named = n["vars"][0]["d"]
+                continue
+            if n.get("k") == "ret":
+                n = n.get("v")
+            op, odd = _neg_strip(n) if n is not None else (None, False)
+            if op is not call.node and not (named is not None and op is not None and op.get("k") == "var" and op.get("d") == named):
+                return None
+        if (g.raw.get("ret") or "").strip() not in ("bool", "_Bool"):
+            return None
+        rets = [e for e in rest if e.node.get("k") == "ret" and "root" in e.raw]
+        if rets:
+            if cont[0] != "branch" or ob.fn.exit not in ob.succs:
+                return None
+            op, odd = _neg_strip(rets[-1].node.get("v"))
+            return (("abs", cont[2]), ("abs", cont[1])) if odd else (("abs", cont[1]), ("abs", cont[2]))
+        c, st, sf = common.branch(ob)      # (a condition that reads a const bool declared right before the branch is already resolved to its initialiser)
+        if c is None or not (c is call.node or (named is not None and c.get("k") == "var" and c.get("d") == named)):
+            return None
+        return (st, sf)
+
+    # ---- what rules read from a Function
+    def elems(self):
+        for b in self.blocks.values():
+            for e in b.elems:
+                yield e
+
+    def stmts(self):
+        for e in self.elems():
+            if e.kind == "stmt":
+                yield e
+
+    def loc(self, x=None):
+        return self.root.loc(x.orig if isinstance(x, VElem) else x)
+
+
+def view_of(ctx, f):
+    cache = ctx.__dict__.setdefault("_c11_views", {})
+    key = (ctx.config, f.sig)
+    if key not in cache:
+        cache[key] = View(ctx.fb(), f)
+    return cache[key]
+
+
+def vresolve(n, frame):
+    """the expression a helper's parameter stands for at the call the frame was expanded from (wrappers removed)"""
+    n = strip_wrappers(n)
+    while n is not None and n.get("k") == "var" and n.get("parm") is not None and frame is not None and frame.parent is not None and n["parm"] < len(frame.args):
+        n, frame = strip_wrappers(frame.args[n["parm"]]), frame.parent
+    return n, frame
+
+
+def same_var(a, fa, b, fb_):
+    """two `var` nodes name the same variable of the same expansion frame"""
+    return a is not None and b is not None and a.get("k") == "var" and b.get("k") == "var" and fa is fb_ and a.get("d") == b.get("d")
+
+
+def local_decl(fn, d):
+    """the declaration record {n, d, t, init} of local variable d of function fn (None for parameters)"""
+    for n in fn.nodes.values():
+        if n.get("k") == "decl":
+            for v in n["vars"]:
+                if v.get("d") == d:
+                    return v
+    return None
+
+
 def kvf(ctx, name):
     return ctx.fb().func(KV + "::" + name, file_suffix=KVF)
 
 
-def path_name(n):
-    """which store path an expression names"""
+def path_leaf(n, frame=None):
+    """the named thing a path expression is built from: looks through std::filesystem::path / std::string construction, .c_str()
+    and — inside an expanded helper — through the helper's parameter to the caller's argument.  Returns (node, frame)."""
     n = strip_wrappers(n)
-    while n is not None and n.get("k") in ("ctor", "mcall") and (n.get("args") or n.get("obj")):
-        if n.get("k") == "mcall" and last(n.get("callee", "")) == "c_str":
-            n = strip_wrappers(n.get("obj"))
-        elif n.get("k") == "ctor" and len(n["args"]) >= 1:
+    for _ in range(12):
+        if n is None:
+            break
+        if n.get("k") == "mcall" and last(n.get("callee", "")) == "c_str" and n.get("obj") is not None:
+            n = strip_wrappers(n["obj"])
+        elif n.get("k") == "ctor" and len(n.get("args") or []) >= 1:
             n = strip_wrappers(n["args"][0])
+        elif n.get("k") == "var" and n.get("parm") is not None and frame is not None and frame.parent is not None:
+            n2, frame2 = vresolve(n, frame)
+            if n2 is n:
+                break
+            n, frame = n2, frame2
         else:
             break
+    return n, frame
+
+
+def leaf_name(n, fn):
+    """which store path a leaf names: the field's name; `<field>+suffix` for a local that is initialised once as field + literal
+    (the temp name derived from the durable name — no matter what the local is called); `local:<name>` for any other variable"""
     if n is None:
         return None
     f = field_of(n)
     if f:
         return last(f)
     if n.get("k") == "var":
+        v = local_decl(fn, n.get("d")) if fn is not None and n.get("parm") is None else None
+        i = strip_wrappers(v.get("init")) if v and v.get("init") is not None else None
+        if i is not None and "const" in (v.get("t") or "") and i.get("k") == "opcall" and i.get("op") == "+" and len(i["args"]) == 2:
+            base, suf = strip_wrappers(i["args"][0]), strip_wrappers(i["args"][1])
+            if field_of(base) and suf is not None and suf.get("k") == "str":
+                return last(field_of(base)) + "+suffix"
         return "local:" + n["n"]
     return show(n)[:40]
 
 
+def path_name(n, frame=None, fn=None):
+    """which store path an expression names"""
+    leaf, fr = path_leaf(n, frame)
+    return leaf_name(leaf, fr.fn if fr is not None else fn)
+
+
+def mode_value(n, frame=None):
+    if n is None:
+        return None
+    v = const_value(n)
+    if v is None and frame is not None:
+        m, _fr = vresolve(n, frame)
+        v = const_value(m) if m is not None else None
+    return v
+
+
+def site_of(e):
+    """(kind, [path expressions], mode expression or None, mode default) if element e is a file-mutating call, else None"""
+    n = e.node
+    k = n.get("k")
+    if k == "ctor" and n.get("cls") == "std::basic_ofstream" and n["args"]:
+        return ("ofstream", [n["args"][0]], n["args"][1] if len(n["args"]) > 1 else None, IOS_OUT)
+    if k == "mcall" and n.get("callee") in ("std::basic_ofstream::open", "std::basic_fstream::open") and n["args"]:
+        return ("open", [n["args"][0]], n["args"][1] if len(n["args"]) > 1 else None, IOS_OUT)
+    if k == "ctor" and n.get("cls") == "std::basic_fstream" and n["args"]:
+        return ("fstream", [n["args"][0]], n["args"][1] if len(n["args"]) > 1 else None, None)
+    if k == "call" and n.get("callee") in ("std::filesystem::rename", "rename"):
+        return ("rename", [n["args"][0], n["args"][1]], None, None)
+    if k == "call" and n.get("callee") in ("std::filesystem::remove", "std::filesystem::remove_all", "remove", "unlink"):
+        return ("remove", [n["args"][0]], None, None)
+    if k == "call" and n.get("callee") in ("std::filesystem::resize_file", "truncate", "ftruncate"):
+        return ("resize", [n["args"][0]], None, None)
+    if k == "call" and n.get("callee") in ("open", "creat", "fopen", "openat"):
+        return (n["callee"], [n["args"][0]], n["args"][1] if len(n["args"]) > 1 else None, None)
+    if k == "call" and n.get("callee") in ("std::filesystem::copy_file", "std::filesystem::copy", "std::filesystem::create_hard_link"):
+        return ("copy", [n["args"][0], n["args"][1]], None, None)
+    return None
+
+
+def _site_mode(kind, mexpr, default, frame):
+    mode = mode_value(mexpr, frame) if mexpr is not None else None
+    if kind in ("ofstream", "open"):
+        return (mode if mode is not None else IOS_OUT) | IOS_OUT        # ofstream always adds ios::out
+    return mode
+
+
 def file_sites(fb, files):
-    """(Function, Elem, kind, path, mode) for every file-mutating call"""
+    """(Function, Elem, kind, path, mode) for every file-mutating call, each function on its own (no helper is followed)"""
     out = []
     for f in fb.functions:
         if not f.ok or not f.file.endswith(tuple(files)):
             continue
         for e in f.stmts():
-            n = e.node
-            k = n.get("k")
-            if k == "ctor" and n.get("cls") == "std::basic_ofstream" and n["args"]:
-                args = [a for a in n["args"]]
-                mode = const_value(args[1]) if len(args) > 1 else None
-                out.append((f, e, "ofstream", path_name(args[0]), (mode if mode is not None else IOS_OUT) | IOS_OUT))
-            elif k == "mcall" and n.get("callee") in ("std::basic_ofstream::open", "std::basic_fstream::open") and n["args"]:
-                mode = const_value(n["args"][1]) if len(n["args"]) > 1 else None
-                out.append((f, e, "open", path_name(n["args"][0]), (mode if mode is not None else IOS_OUT) | IOS_OUT))
-            elif k == "ctor" and n.get("cls") == "std::basic_fstream" and n["args"]:
-                out.append((f, e, "fstream", path_name(n["args"][0]), const_value(n["args"][1]) if len(n["args"]) > 1 else None))
-            elif k == "call" and n.get("callee") in ("std::filesystem::rename", "rename"):
-                out.append((f, e, "rename", (path_name(n["args"][0]), path_name(n["args"][1])), None))
-            elif k == "call" and n.get("callee") in ("std::filesystem::remove", "std::filesystem::remove_all", "remove", "unlink"):
-                out.append((f, e, "remove", path_name(n["args"][0]), None))
-            elif k == "call" and n.get("callee") in ("std::filesystem::resize_file", "truncate", "ftruncate"):
-                out.append((f, e, "resize", path_name(n["args"][0]), None))
-            elif k == "call" and n.get("callee") in ("open", "creat", "fopen", "openat"):
-                out.append((f, e, n["callee"], path_name(n["args"][0]), const_value(n["args"][1]) if len(n["args"]) > 1 else None))
-            elif k == "call" and n.get("callee") in ("std::filesystem::copy_file", "std::filesystem::copy", "std::filesystem::create_hard_link"):
-                out.append((f, e, "copy", (path_name(n["args"][0]), path_name(n["args"][1])), None))
+            s = site_of(e)
+            if s:
+                kind, paths, mexpr, default = s
+                names = [path_name(p, None, f) for p in paths]
+                out.append((f, e, kind, names[0] if len(names) == 1 else tuple(names), _site_mode(kind, mexpr, default, None)))
     return out
+
+
+def view_sites(v):
+    """(VElem, kind, path, mode) for every file-mutating call a protocol step performs itself or through the helpers expanded in
+    view v; a path / mode handed to a helper as a parameter is read at the call"""
+    out = []
+    for e in v.stmts():
+        s = site_of(e)
+        if s:
+            kind, paths, mexpr, default = s
+            names = [path_name(p, e.frame) for p in paths]
+            out.append((e, kind, names[0] if len(names) == 1 else tuple(names), _site_mode(kind, mexpr, default, e.frame)))
+    return out
+
+
+STEPS = ("openLogFile", "compactLocked", "load", "flush", "saveToFile")      # the functions R1's table is keyed by: one protocol step each
+
+
+def attributed_sites(fb, cg, files):
+    """R1's enumeration: (step Function, Function holding the call, Elem, kind, path, mode, helper chain).  A file operation written
+    in a private helper of a store class is the operation of the protocol step that calls the helper: it is attributed to every
+    caller (transitively, until a function of the table / a public function / a function nobody calls is reached), with the
+    helper's path and mode parameters replaced by the caller's arguments.  The operation set of a step is therefore the same
+    whether a piece of it is spelled inline or moved verbatim into a helper, and a helper that is ALSO called from somewhere the
+    table does not allow (clear() calling the log reset) is reported for that caller."""
+    def is_helper(f):
+        return f.kind == "method" and f.cls in (KV, JS) and f.access in ("private", "protected") and last(f.name) not in STEPS
+
+    def up(f, leaves, mleaf, chain):
+        """leaves: [(node, Function it is an expression of)]"""
+        callers = [(g, n) for (g, e, n) in cg.callers.get(f.name, []) if g.ok and g.file.endswith(tuple(files)) and g is not f] if is_helper(f) else []
+        if not callers:
+            return [(f, leaves, mleaf, chain)]
+        if len(chain) > 4 or f.name in chain:
+            raise AnalysisBroken("file operation in %s: helper chain %s too deep / recursive to attribute to a protocol step" % (short(f.name), list(chain)))
+        out = []
+        for (g, n) in callers:
+            args = n.get("args", [])
+
+            def bind(x, owner):
+                if x is not None and owner is f and x.get("k") == "var" and x.get("parm") is not None and x["parm"] < len(args):
+                    return (path_leaf(args[x["parm"]])[0], g)
+                return (x, owner)
+            out += up(g, [bind(x, o) for (x, o) in leaves], bind(mleaf[0], mleaf[1]) if mleaf is not None else None, chain + (f.name,))
+        return out
+    res = []
+    for f in fb.functions:
+        if not f.ok or not f.file.endswith(tuple(files)):
+            continue
+        for e in f.stmts():
+            s = site_of(e)
+            if not s:
+                continue
+            kind, paths, mexpr, default = s
+            leaves = [(path_leaf(p)[0], f) for p in paths]
+            mleaf = (strip_wrappers(mexpr), f) if mexpr is not None else None
+            for (g, lv, ml, chain) in up(f, leaves, mleaf, ()):
+                names = [leaf_name(x, o) for (x, o) in lv]
+                mode = const_value(ml[0]) if ml is not None and ml[0] is not None else None
+                if kind in ("ofstream", "open"):
+                    mode = (mode if mode is not None else IOS_OUT) | IOS_OUT
+                res.append((g, f, e, kind, names[0] if len(names) == 1 else tuple(names), mode, chain))
+    return res
 
 
 def r1(ctx, r):
     fb = ctx.fb()
-    sites = file_sites(fb, (KVF, JSF))
-    if len(sites) < 9:
+    sites = attributed_sites(fb, ctx.cg(), (KVF, JSF))
+    if len({id(e) for (g, f, e, kind, path, mode, chain) in sites}) < 9:
         raise AnalysisBroken("only %d file-mutating sites found in the stores (floor 9)" % len(sites))
     allowed = {
         # (function, kind, path) -> predicate on mode
@@ -99,24 +486,20 @@ def r1(ctx, r):
         ("compactLocked", "ofstream", "_logPath"): lambda m: m is not None and m & IOS_TRUNC,    # log reset after the snapshot rename (order: R3)
         ("load", "resize", "_logPath"): lambda m: True,
         ("flush", "open", "_logPath"): lambda m: m is not None and (m & 0o2000) and not (m & 0o1000),   # O_APPEND, not O_TRUNC (fsync handle)
-        ("saveToFile", "ofstream", "local:tempFilename"): lambda m: True,
-        ("saveToFile", "rename", ("local:tempFilename", "_filename")): lambda m: True,
-        ("saveToFile", "remove", "local:tempFilename"): lambda m: True,
+        # `_filename+suffix`: a const local initialised as _filename + "literal" (the temp name next to the durable file, whatever the local is called)
+        ("saveToFile", "ofstream", "_filename+suffix"): lambda m: True,
+        ("saveToFile", "rename", ("_filename+suffix", "_filename")): lambda m: True,
+        ("saveToFile", "remove", "_filename+suffix"): lambda m: True,
     }
-    for (f, e, kind, path, mode) in sites:
+    for (g, f, e, kind, path, mode, chain) in sites:
         r.instance()
-        key = (last(f.name), kind, path)
+        key = (last(g.name), kind, path)
         ok = key in allowed and allowed[key](mode)
-        r.expect(ok, f, e, "%s %s" % (kind, path if isinstance(path, str) else "→".join(map(str, path))),
-                 "%s performs `%s` on %s (mode %s), which is not in the closed set of file operations the crash-consistency argument covers: the snapshot / JSON file may only be a "
-                 "rename destination, the log may only be appended to, cut in load() or reset after a successful snapshot rename" % (short(f.name), kind, path, mode),
-                 okdesc="%s: %s %s" % (short(f.name), kind, path))
-    # the temp path of the JSON store is derived from the durable name
-    sv = fb.func(JS + "::saveToFile", file_suffix=JSF)
-    tv = [v for e in sv.stmts() if e.node.get("k") == "decl" for v in e.node["vars"] if v["n"] == "tempFilename"]
-    r.instance()
-    r.expect(len(tv) == 1 and "_filename" in show(tv[0].get("init") or {}), sv, None, "temp name", "the temp file of JsonFileStore is not derived from _filename (rename must stay on one filesystem)",
-             okdesc="tempFilename = _filename + suffix")
+        via = (" (through %s)" % " → ".join(short(c) for c in reversed(chain))) if chain else ""
+        r.expect(ok, g if g.file == f.file else f, e, "%s %s" % (kind, path if isinstance(path, str) else "→".join(map(str, path))),
+                 "%s%s performs `%s` on %s (mode %s), which is not in the closed set of file operations the crash-consistency argument covers: the snapshot / JSON file may only be a "
+                 "rename destination, the log may only be appended to, cut in load() or reset after a successful snapshot rename" % (short(g.name), via, kind, path, mode),
+                 okdesc="%s%s: %s %s" % (short(g.name), via, kind, path))
 
 
 MUTATORS_PUBLIC = ("set", "remove", "setBatch", "expireAt", "persist")
@@ -218,32 +601,84 @@ def r2(ctx, r):
     # payload protected by the checksum that load() verifies
     crc = [e for e in wl.stmts() if e.node.get("k") == "mcall" and e.node.get("callee") == KV + "::crc32"]
     r.instance()
-    r.expect(len(crc) == 1 and show(crc[0].node["args"][0]) == "buffer" and all(elem_dominates(wl, crc[0], x) for x in writes), wl, None, "checksum", "the record checksum is not computed over the whole payload before it is written",
-             okdesc="crc32(buffer) before the writes")
+    # (over the very variable whose bytes one of the writes puts out: `crc32(X)` … `write(X.data(), X.size())` — whatever X is called)
+    def written_vars():
+        out = set()
+        for wcall in writes:
+            for x in walk(wcall.node["args"][0]) if wcall.node.get("args") else ():
+                if x.get("k") == "mcall" and last(x.get("callee", "")) == "data" and strip_wrappers(x.get("obj") or {}).get("k") == "var":
+                    out.add(strip_wrappers(x["obj"]).get("d"))
+        return out
+    carg = strip_wrappers(crc[0].node["args"][0]) if len(crc) == 1 and crc[0].node.get("args") else None
+    r.expect(carg is not None and carg.get("k") == "var" and carg.get("d") in written_vars() and all(elem_dominates(wl, crc[0], x) for x in writes), wl, None, "checksum",
+             "the record checksum is not computed over the whole payload before it is written", okdesc="crc32(payload) before the writes, over the buffer that is written")
+
+
+def branch_ok(b):
+    """common.branch with the overloaded `!` of streams removed as well (`!log.read(…)` is basic_ios::operator!, true when the
+    operation FAILED): (operand, successor when the operand converts to true, successor when it does not)"""
+    c, st, sf = common.branch(b)
+    while c is not None and c.get("k") == "opcall" and c.get("op") == "!" and len(c.get("args") or []) == 1:
+        c, st, sf = strip_casts(c["args"][0]), sf, st
+        while c is not None and c.get("k") == "un" and c.get("op") == "!" and isinstance(c.get("v"), dict):
+            c, st, sf = strip_casts(c["v"]), sf, st
+    return c, st, sf
+
+
+def is_ec_test(c):
+    """the variable node if condition c (top-level `!` removed) tests a std::error_code for 'an error happened', else None"""
+    c, _odd = _neg_strip(c)
+    if c is not None and c.get("k") == "mcall" and c.get("callee") == "std::error_code::operator bool" and strip_wrappers(c.get("obj") or {}).get("k") == "var":
+        return strip_wrappers(c["obj"])
+    return None
+
+
+def ec_arg(call_node):
+    """the std::error_code variable a std::filesystem call reports into (its last argument), or None"""
+    args = [a for a in call_node.get("args", []) if not a.get("def")]
+    a = strip_wrappers(args[-1]) if args else None
+    return a if a is not None and a.get("k") == "var" and "error_code" in (a.get("t") or "") else None
+
+
+def stream_var_of(v, site):
+    """the local variable (decl record) a stream-constructing site initialises, in the site's function"""
+    for e in v.stmts():
+        if e.frame is site.frame and e.node.get("k") == "decl":
+            for dv in e.node["vars"]:
+                if dv.get("init") is site.node:
+                    return dv
+    return None
 
 
 def r3_r4(ctx, r3, r4):
     fb, la = ctx.fb(), ctx.locks()
     f = kvf(ctx, "compactLocked")
-    sites = {(kind, path if isinstance(path, str) else path): e for (g, e, kind, path, mode) in file_sites(fb, (KVF,)) if g is f}
-    tmp = sites.get(("ofstream", "_tempPath"))
-    ren = sites.get(("rename", ("_tempPath", "_path")))
-    clr = sites.get(("ofstream", "_logPath"))
+    # the order is decided over compactLocked with its helpers expanded: a step written in a private helper (the temp snapshot
+    # write, the log reset) is at the position of the call, with the helper's path parameter read as the caller's argument
+    v = view_of(ctx, f)
+    sites = {}
+    for (e, kind, path, mode) in view_sites(v):
+        sites.setdefault((kind, path), []).append(e)
+    if any(len(sites.get(k, [])) > 1 for k in (("ofstream", "_tempPath"), ("rename", ("_tempPath", "_path")), ("ofstream", "_logPath"))):
+        raise AnalysisBroken("compactLocked: more than one temp open / rename / log reset (a helper expanded twice?)")
+    tmp = (sites.get(("ofstream", "_tempPath")) or [None])[0]
+    ren = (sites.get(("rename", ("_tempPath", "_path"))) or [None])[0]
+    clr = (sites.get(("ofstream", "_logPath")) or [None])[0]
     if not (tmp and ren and clr):
         raise AnalysisBroken("compactLocked: temp open / rename / log reset not all found")
-    flushes = [e for e in f.stmts() if e.node.get("k") == "mcall" and last(e.node.get("callee", "")) == "flush" and (e.node.get("obj") or {}).get("k") == "var"]
-    goods = [b for b in f.blocks.values() if b.cond is not None and "good()" in show(b.cond)]
-    wkv = [e for e in f.stmts() if e.node.get("k") == "mcall" and e.node.get("callee") in (KV + "::writeKeyValue", KV + "::writeHeader")]
-    tmpvar = None
-    pe = f.nodes.get(f.parent.get(tmp.node["id"]))
-    for e in f.stmts():
-        if e.node.get("k") == "decl":
-            for v in e.node["vars"]:
-                if v.get("init") is tmp.node:
-                    tmpvar = v
-    dtor = [e for e in f.elems() if e.kind == "dtor" and tmpvar and e.raw.get("d") == tmpvar["d"]]
-    opens = [e for e in f.stmts() if e.node.get("k") == "mcall" and e.node.get("callee") == KV + "::openLogFile"]
-    ectest = [b for b in f.blocks.values() if b.cond is not None and show(b.cond).replace(" ", "") in ("ec.operatorbool()", "ec", "!ec", "!ec.operatorbool()") and b.elems and elem_dominates(f, ren, b.elems[-1])]
+    tmpvar = stream_var_of(v, tmp)
+
+    def on_tmp(n):
+        o = strip_wrappers(n.get("obj") or {})
+        return tmpvar is not None and o.get("k") == "var" and o.get("d") == tmpvar["d"]
+    flushes = [e for e in v.stmts() if e.frame is tmp.frame and e.node.get("k") == "mcall" and last(e.node.get("callee", "")) == "flush" and on_tmp(e.node)]
+    goods = [b for b in v.blocks.values() if b.frame is tmp.frame and b.cond is not None and any(x.get("k") == "mcall" and last(x.get("callee", "")) == "good" and on_tmp(x) for x in walk(b.cond))]
+    wkv = [e for e in v.stmts() if e.node.get("k") == "mcall" and e.node.get("callee") in (KV + "::writeKeyValue", KV + "::writeHeader")]
+    dtor = [e for e in v.elems() if e.kind == "dtor" and e.frame is tmp.frame and tmpvar and e.raw.get("d") == tmpvar["d"]]
+    opens = [e for e in v.stmts() if e.node.get("k") == "mcall" and e.node.get("callee") == KV + "::openLogFile"]
+    # the test of the rename's own error code (the variable handed to the rename call, whatever it is called)
+    rec = ec_arg(ren.node)
+    ectest = [b for b in v.blocks.values() if b.frame is ren.frame and b.cond is not None and rec is not None and same_var(is_ec_test(b.cond), b.frame, rec, ren.frame) and b.elems and elem_dominates(v, ren, b.elems[-1], eh=False)]
     chain = [("temp file opened with trunc", [tmp]), ("snapshot records written", wkv), ("flush", flushes), ("temp stream destroyed (closed)", dtor), ("rename temp → snapshot", [ren]),
              ("log truncated", [clr]), ("log reopened for append", opens)]
     for i in range(len(chain) - 1):
@@ -253,26 +688,32 @@ def r3_r4(ctx, r3, r4):
         if ok:
             # every b is preceded by some a on all paths, and no b can run before a
             for y in b[1]:
-                if search(f, ("entry",), lambda x, y=y: x is y, stop=lambda x, a=a: x in a[1], eh=False) is not None:
+                if search(v, ("entry",), lambda x, y=y: x is y, stop=lambda x, a=a: x in a[1], eh=False) is not None:
                     ok = False
         r3.expect(ok, f, (b[1] or a[1] or [None])[0], "%s before %s" % (b[0], a[0]), "compaction order broken: `%s` can happen without `%s` having happened first — a crash in between leaves neither the "
                   "old snapshot+log nor the new snapshot complete" % (b[0], a[0]), okdesc="%s ≺ %s" % (a[0], b[0]))
     r3.instance()
-    r3.expect(bool(goods) and all(search(f, ("entry",), lambda x: x is ren, stop=lambda x, b=b: x in b.elems, eh=False) is None for b in goods), f, ren, "rename without good()",
+    r3.expect(bool(goods) and all(search(v, ("entry",), lambda x: x is ren, stop=lambda x, b=b: x in b.elems, eh=False) is None for b in goods), f, ren, "rename without good()",
               "the snapshot rename is reachable without the temp stream's state having been tested after the flush", okdesc="good() tested before rename")
     r3.instance()
     ok = False
     for b in ectest:
         # on the error edge the log is NOT truncated
-        err_edge = 0 if not show(b.cond).startswith("!") else 1
-        s = b.succs[err_edge]
-        if s is not None and search(f, ("block", s), lambda x: x is clr, eh=False) is None:
+        c, st, sf = common.branch(b)
+        if st is not None and search(v, ("block", st), lambda x: x is clr, eh=False) is None:
             ok = True
     r3.expect(ok, f, ren, "rename error ignored", "the log is reset although the snapshot rename may have failed: both copies of the data are then gone", okdesc="rename error ⇒ throw before the log reset")
-    # dropped keys leave memory only after the snapshot is in place
-    er = [e for e in common.member_calls_on(f, KV + "::_kv", ("erase",))]
+    # between the moment the new snapshot is complete and the rename nothing else touches the snapshot path: the replacement is
+    # ONE atomic rename (an unlink / truncation of _path in front of it opens a window with no snapshot at all)
     r3.instance()
-    r3.expect(er and all(search(f, ("entry",), lambda x, e=e: x is e, stop=lambda x: x is ren, eh=False) is None for e in er), f, er[0] if er else None, "memory pruned before rename",
+    pre = [e for (k, es) in sites.items() for e in es if e is not ren and "_path" in (k[1] if isinstance(k[1], tuple) else (k[1],))]
+    r3.expect(not pre, f, pre[0] if pre else None, "snapshot path touched outside the rename", "compaction performs another file operation on the snapshot path besides the rename that replaces it: the replacement is "
+              "no longer a single atomic step, and a crash between the two leaves no (or a damaged) snapshot while the log holds only the records since the previous compaction",
+              okdesc="_path is written by nothing but the rename")
+    # dropped keys leave memory only after the snapshot is in place
+    er = [e for e in common.member_calls_on(v, KV + "::_kv", ("erase",))]
+    r3.instance()
+    r3.expect(er and all(search(v, ("entry",), lambda x, e=e: x is e, stop=lambda x: x is ren, eh=False) is None for e in er), f, er[0] if er else None, "memory pruned before rename",
               "expired keys are erased from memory before the new snapshot is in place", okdesc="in-memory pruning after the rename")
     # R4: one exclusive hold
     r4.instance()
@@ -281,14 +722,27 @@ def r3_r4(ctx, r3, r4):
               "log reset would be in neither the snapshot nor the log" % sorted({short(g.name) for (g, e, n) in ctx.cg().callers.get(f.name, [])}),
               okdesc="every caller of compactLocked holds _mutex exclusively")
     for e in [tmp, ren, clr] + opens:
+        # (a step inside a helper: the helper's entry lock set is what all its call sites hold — locks.LockAnalysis)
         r4.instance()
-        r4.expect(la.holds(f, e, M, "x"), f, e, "file step outside the mutex", "a compaction file step runs without the exclusive store mutex", okdesc="compaction step under _mutex")
+        r4.expect(la.holds(e.fn, e.orig, M, "x"), f, e, "file step outside the mutex", "a compaction file step runs without the exclusive store mutex", okdesc="compaction step under _mutex")
 
 
 def r5(ctx, r):
     f = kvf(ctx, "load")
-    MAXLEN = {"keyLen", "valLen", "totalLen"}
-    bounded = set()
+    # the decoder's cursor set-up, found by its shape (not by what the locals are called): the limit `T *E = <base> + <record>.size()`
+    # and the cursor `T *P = <base>` over the same base pointer
+    decls = [dv for e in f.stmts() if e.node.get("k") == "decl" for dv in e.node["vars"] if dv.get("init") is not None and "*" in (dv.get("t") or "")]
+    lims = []
+    for dv in decls:
+        i = strip_casts(dv["init"])
+        if i.get("k") == "bin" and i["op"] == "+" and strip_casts(i["lhs"]).get("k") == "var":
+            sz = strip_casts(i["rhs"])
+            if sz.get("k") == "mcall" and last(sz.get("callee", "")) == "size" and strip_wrappers(sz.get("obj") or {}).get("k") == "var":
+                lims.append((dv, strip_casts(i["lhs"]), strip_wrappers(sz["obj"])))
+    curs = [dv for dv in decls for (ev, base, rec) in lims if dv is not ev and strip_casts(dv["init"]).get("k") == "var" and strip_casts(dv["init"]).get("d") == base.get("d") and "const *" not in dv["t"].replace("*const", "* const").replace(" * const", " const *")]
+    if len(lims) != 1 or len(curs) != 1:
+        raise AnalysisBroken("load(): the decoder's cursor set-up (`ptr = base`, `end = base + <record>.size()`) not found (%d limits, %d cursors)" % (len(lims), len(curs)))
+    END, PTR, recvar = lims[0][0]["n"], curs[0]["n"], lims[0][2]
 
     def edge(c, truth):
         ops = []
@@ -297,18 +751,15 @@ def r5(ctx, r):
             op, l, rr = cp
             ls, rs = strip_casts(l), strip_casts(rr)
             # `ptr + E > end`  (false edge: avail >= E)
-            if rs.get("k") == "var" and rs["n"] == "end" and ls.get("k") == "bin" and ls["op"] == "+":
+            if rs.get("k") == "var" and rs["n"] == END and ls.get("k") == "bin" and ls["op"] == "+":
                 fm = lin(ls)
-                if fm is not None and "ptr" in fm[1]:
-                    rest = form(fm[0], [s for s in fm[1] if s != "ptr"] + [])
-                    if list(fm[1]).count("ptr") == 1:
+                if fm is not None and PTR in fm[1]:
+                    rest = form(fm[0], [s for s in fm[1] if s != PTR] + [])
+                    if list(fm[1]).count(PTR) == 1:
                         if op == ">" and truth is False:
                             ops.append(("atleast", rest))
                         if op == "<=" and truth is True:
                             ops.append(("atleast", rest))
-            # `buffer.size() < 5` false edge: the record has at least 5 bytes
-            if show(ls) == "buffer.size()" and const_value(rs) is not None and op == "<" and truth is False:
-                ops.append(("atleast", form(0, ("min:%d" % const_value(rs),))))
         return ops
 
     def elem(e):
@@ -323,35 +774,53 @@ def r5(ctx, r):
             xk = x.get("k")
             if xk == "call" and x.get("callee") in ("memcpy", "std::memcpy") and len(x["args"]) == 3:
                 src = strip_casts(strip_wrappers(x["args"][1]))
-                if src.get("k") == "var" and src["n"] == "ptr":
+                if src.get("k") == "var" and src["n"] == PTR:
                     ops.append(("need", lin(x["args"][2]), "memcpy(%s, ptr, %s)" % (show(x["args"][0])[:20], show(x["args"][2]))))
                 dst = strip_casts(strip_wrappers(x["args"][0]))
                 if dst.get("k") == "un" and dst["op"] == "&" and dst["v"].get("k") == "var":
                     ops.append(("kill", dst["v"]["n"]))
             if xk == "ctor" and x.get("cls") == "std::basic_string" and len([a for a in x["args"] if not a.get("def")]) == 2:
                 a0 = strip_casts(strip_wrappers(x["args"][0]))
-                if a0.get("k") == "var" and a0["n"] == "ptr":
+                if a0.get("k") == "var" and a0["n"] == PTR:
                     ops.append(("need", lin(x["args"][1]), "std::string(ptr, %s)" % show(x["args"][1])))
-            if xk == "un" and x["op"] == "*" and strip_casts(x["v"]).get("k") == "un" and strip_casts(x["v"])["op"] == "post++" and strip_casts(strip_casts(x["v"])["v"]).get("n") == "ptr":
+            if xk == "un" and x["op"] == "*" and strip_casts(x["v"]).get("k") == "un" and strip_casts(x["v"])["op"] == "post++" and strip_casts(strip_casts(x["v"])["v"]).get("n") == PTR:
                 ops.append(("need", form(1), "*ptr++"))
                 ops.append(("adv", form(1)))
-            if xk == "bin" and x["op"] == "+=" and strip_casts(x["lhs"]).get("k") == "var" and strip_casts(x["lhs"])["n"] == "ptr":
+            if xk == "bin" and x["op"] == "+=" and strip_casts(x["lhs"]).get("k") == "var" and strip_casts(x["lhs"])["n"] == PTR:
                 ops.append(("adv", lin(x["rhs"]), "ptr += %s" % show(x["rhs"])))
         if k == "decl":
             for v in n["vars"]:
-                if v["n"] == "ptr" and v.get("init") is not None:
+                if v["n"] == PTR and v.get("init") is not None:
                     # ptr = base; end = base + buffer.size(): the window is the whole record, whose minimum size was checked
                     ops.append(("reset", form(0, ("record",))))
         return ops
-    # `record` stands for buffer.size(); the guard `buffer.size() < 5 → continue` and `totalLen < 10 → break` give record >= 5:
-    # model it by translating min:K knowledge into the constant part at the reset
+    # The window starts as the whole record (`ptr = base; end = base + <record>.size()`), whose minimum size was checked on the way:
+    # a guard `<record>.size() < K` whose 'not smaller' edge every path to the decoder takes.  The guard may stand in load() or in
+    # a boolean helper load() branches on (`if (!recordIntact(buffer, n)) continue;` — the helper's parameter is read as load()'s
+    # buffer and its `return false` paths never reach the decoder): decided on the expanded view by edge dominance.
+    v = view_of(ctx, f)
+    ptrdecls = [e for e in v.stmts() if e.frame is v.root_frame and e.node.get("k") == "decl" and any(dv is curs[0] for dv in e.node["vars"])]
+    if len(ptrdecls) != 1:
+        raise AnalysisBroken("load(): the cursor declaration is not an element of load()'s own body")
     floor = 0
-    for b in f.blocks.values():
-        c = b.cond
-        if c is not None:
-            cp = common.cmp_parts(c)
-            if cp and show(strip_casts(cp[1])) == "buffer.size()" and cp[0] == "<" and const_value(cp[2]) is not None:
-                floor = max(floor, const_value(cp[2]))
+    for b in v.blocks.values():
+        co = common.cmp_oriented(b.cond, lambda x: const_value(x) is not None) if b.cond is not None else None
+        if not co:
+            continue
+        l = strip_casts(co[1])
+        if not (l.get("k") == "mcall" and last(l.get("callee", "")) == "size" and l.get("obj") is not None):
+            continue
+        o, ofr = vresolve(l["obj"], b.frame)
+        if not same_var(o, ofr, recvar, v.root_frame):
+            continue
+        k = const_value(co[2])
+        # (succs[0] is the edge on which the stored condition holds)
+        if co[0] in ("<", "<=") and dominated_by_edge(v, ptrdecls[0], b, 1, eh=False):
+            floor = max(floor, k if co[0] == "<" else k + 1)
+        if co[0] in (">=", ">") and dominated_by_edge(v, ptrdecls[0], b, 0, eh=False):
+            floor = max(floor, k if co[0] == ">=" else k + 1)
+
+    r.note("load(): record size floor %d at the decoder" % floor)
 
     def elem2(e):
         ops = elem(e)
@@ -365,6 +834,34 @@ def r5(ctx, r):
     r.instance(nreq)
     for (e, what) in w.checked:
         r.ok("load(): %s inside the record window" % what)
+    def under(call):
+        """blocks of the view that belong to the expansion of the helper call `call` (at any depth)"""
+        out = []
+        for b in v.blocks.values():
+            fr = b.frame
+            while fr is not None and fr.call is not call:
+                fr = fr.parent
+            if fr is not None:
+                out.append(b)
+        return out
+
+    def is_size_guard(b):
+        co = common.cmp_oriented(b.cond, lambda x: const_value(x) is not None) if b.cond is not None else None
+        l = strip_casts(co[1]) if co else None
+        if l is None or not (l.get("k") == "mcall" and last(l.get("callee", "")) == "size" and l.get("obj") is not None):
+            return False
+        o, ofr = vresolve(l["obj"], b.frame)
+        return same_var(o, ofr, recvar, v.root_frame)
+    if w.violations and any(is_size_guard(b) for (call, g) in v.joined_bool for b in under(call)):
+        # the record's size IS checked, but inside a boolean helper whose result reaches the decoder's guard in a way the view cannot
+        # follow (stored, combined, passed on): what the helper established is unknown here — not a verdict
+        raise AnalysisBroken("load(): the record-size guard sits in a boolean helper (%s) whose result is not the condition of the branch that protects the decoder" % ", ".join(sorted({short(g.name) for (c_, g) in v.joined_bool})))
+    # the window analysis reads load()'s own body: when the cursor or the limit is handed to a function (a bounds-check or
+    # field-reader helper) the guards / advances made there are not seen, so missing knowledge is not a verdict
+    escapes = [x for e in f.stmts() if "root" in e.raw for x in walk(e.node) if x.get("k") in ("call", "mcall") and x.get("callee") not in ("memcpy", "std::memcpy") and
+               any(y.get("k") == "var" and y["n"] in (PTR, END) for a in x.get("args", []) for y in [strip_casts(strip_wrappers(a))] + ([strip_casts(strip_wrappers(a))["v"]] if strip_casts(strip_wrappers(a)).get("k") == "un" else []) if isinstance(y, dict))]
+    if w.violations and escapes:
+        raise AnalysisBroken("load(): the decoder hands its cursor / limit to %s: bounds established there are not followed" % ", ".join(sorted({short(x.get("callee", "?")) for x in escapes})))
     for (e, need, have, what) in w.violations:
         r.fail(f, e, "read outside record: %s" % what.split("(")[0], "the log decoder performs `%s` needing %s bytes while only %s are known to remain before `end`: a corrupt or torn record "
                "makes replay read outside the record buffer" % (what, show_form(need), show_form(have)))
@@ -374,154 +871,277 @@ def r5(ctx, r):
     for sym in ("keyLen", "valLen", "totalLen"):
         r.instance()
         ok = False
-        for b in f.blocks.values():
+        for b in v.blocks.values():
+            # (in load() itself, or in a helper that is handed the length: the helper's parameter is read as load()'s variable)
             co = common.cmp_oriented(b.cond, lambda x: const_value(x) is not None) if b.cond is not None else None
-            if co and co[0] in (">", ">=") and strip_casts(co[1]).get("k") == "var" and strip_casts(co[1])["n"] == sym and const_value(co[2]) < 2 ** 31:
+            lv, lfr = vresolve(strip_casts(co[1]), b.frame) if co else (None, None)
+            if co and co[0] in (">", ">=") and lv is not None and lfr is v.root_frame and lv.get("k") == "var" and lv["n"] == sym and const_value(co[2]) < 2 ** 31:
                 ok = True
                 bounds.setdefault(sym, []).append(const_value(co[2]) - (1 if co[0] == ">=" else 0))
         r.expect(ok, f, None, "%s unbounded" % sym, "the decoded length %s is not compared with a constant upper bound before it is used in `ptr + %s` (pointer arithmetic could wrap)" % (sym, sym),
                  okdesc="%s bounded by a constant" % sym)
     ctx._c11_replay_bounds = bounds
-    # the CRC is verified before any field is used
-    crc = [b for b in f.blocks.values() if b.cond is not None and "crc32(" in show(b.cond) and "storedCrc" in show(b.cond)]
-    ptrdecl = [e for e in f.stmts() if e.node.get("k") == "decl" and any(v["n"] == "ptr" for v in e.node["vars"])]
+    # the CRC is verified before any field is used: the decoder is reachable only over the 'equal' edge of a comparison of
+    # crc32(<payload>) with the stored value (in load() itself or in a boolean helper it branches on)
+    crc = []
+    for b in v.blocks.values():
+        cp = common.cmp_parts(strip_casts(b.cond)) if b.cond is not None else None
+        if cp and cp[0] in ("==", "!=") and any(strip_casts(x).get("k") in ("mcall", "call") and strip_casts(x).get("callee") == KV + "::crc32" for x in cp[1:]):
+            crc.append((b, 0 if cp[0] == "==" else 1))
+    if not crc and any(x.get("k") in ("bin", "opcall") and x.get("op") in ("==", "!=") and any(y.get("callee") == KV + "::crc32" for y in walk(x)) for e in v.stmts() if "root" in e.raw for x in walk(e.node)):
+        # the comparison exists but its result is not branched on where it is computed (stored / returned through a join): cannot be followed
+        raise AnalysisBroken("load(): the checksum comparison is not the condition of a branch (its result is stored or passed through a helper the view cannot correlate)")
     r.instance()
-    r.expect(len(crc) == 1 and ptrdecl and all(search(f, ("entry",), lambda x: x in ptrdecl, stop=lambda x: x in crc[0].elems, eh=False) is None for _ in [0]), f, None, "CRC after use",
+    r.expect(len(crc) == 1 and dominated_by_edge(v, ptrdecls[0], crc[0][0], crc[0][1], eh=False), f, None, "CRC after use",
              "record fields are decoded before the checksum was verified", okdesc="crc verified before decoding")
+
+
+def _conv_strip(n):
+    """look through value conversions (casts, converting constructors, std::move) to the converted expression"""
+    n = strip_wrappers(n)
+    while n is not None and n.get("k") in ("cast", "ctor") and (n.get("v") or n.get("args")):
+        n = strip_wrappers(n.get("v") or n["args"][0])
+    return n
+
+
+def _assignments(elems, d):
+    """elements that assign to / step the local variable d"""
+    out = []
+    for e in elems:
+        n = e.node
+        if n.get("k") in ("bin", "opcall") and n.get("op", "").endswith("=") and n.get("op") not in ("==", "!=", "<=", ">="):
+            lhs = strip_wrappers(n.get("lhs") or (n.get("args") or [None])[0])
+            if lhs is not None and lhs.get("k") == "var" and lhs.get("d") == d:
+                out.append(e)
+        elif n.get("k") == "un" and ("++" in n["op"] or "--" in n["op"]) and strip_wrappers(n["v"]).get("k") == "var" and strip_wrappers(n["v"]).get("d") == d:
+            out.append(e)
+    return out
+
+
+def reach_blocks(v, start):
+    """ids of the blocks control can be in after element `start` (a block counts from its first element; nothing continues behind a throw)"""
+    def dead(es):
+        return any(x.kind == "stmt" and x.node.get("k") == "throw" and "root" in x.raw for x in es)
+    seen, work = set(), []
+    b0 = start.block
+    if not dead(b0.elems[start.idx + 1:]) and not b0.raw.get("noreturn"):
+        work = [s for s in b0.succs if s is not None]
+    while work:
+        bid = work.pop()
+        if bid in seen:
+            continue
+        seen.add(bid)
+        b = v.blocks[bid]
+        if dead(b.elems) or b.raw.get("noreturn"):
+            continue
+        work += [s for s in b.succs if s is not None]
+    return seen
 
 
 def r6(ctx, r):
     fb = ctx.fb()
     f = kvf(ctx, "load")
-    rs = [e for (g, e, kind, path, mode) in file_sites(fb, (KVF,)) if g is f and kind == "resize"]
+    # decided over load() with its helpers expanded: the cut (and the test that guards it) may stand in load() or in a helper that
+    # load() calls behind the replay loop with the recorded offset as argument
+    v = view_of(ctx, f)
+    rs = [e for (e, kind, path, mode) in view_sites(v) if kind == "resize"]
     r.instance()
     if not rs:
         r.fail(f, None, "torn tail not cut", "load() no longer truncates the log to the end of the last complete record: records appended after a torn tail are framed by the torn record's "
                "length on the next replay and an acknowledged write is lost")
         return
     rz = rs[0]
-    size_arg = strip_wrappers(rz.node["args"][1])
-    while size_arg.get("k") in ("cast", "ctor") and (size_arg.get("v") or size_arg.get("args")):
-        size_arg = strip_wrappers(size_arg.get("v") or size_arg["args"][0])
-    vn = size_arg.get("n") if size_arg.get("k") == "var" else None
-    aliases = {vn}
-    # follow `const auto keep = static_cast<...>(validEnd)` one or two levels
-    for _ in range(3):
-        for e in f.stmts():
-            if e.node.get("k") == "decl":
-                for v in e.node["vars"]:
-                    if v["n"] == vn and v.get("init") is not None:
-                        i = strip_wrappers(v["init"])
-                        while i is not None and i.get("k") in ("cast", "ctor") and (i.get("v") or i.get("args")):
-                            i = strip_wrappers(i.get("v") or i["args"][0])
-                        if i is not None and i.get("k") == "var" and i["n"] != vn and not any(
-                                x.node.get("k") == "bin" and x.node["op"].endswith("=") and x.node["op"] not in ("==", "!=", "<=", ">=") and strip_wrappers(x.node["lhs"]).get("n") == vn for x in f.stmts()):
-                            vn = i["n"]
-                            aliases.add(vn)
+    size_arg = _conv_strip(rz.node["args"][1])
+    # the variable the cut position comes from: through conversions, a helper's parameter (→ the caller's argument) and
+    # single-assignment locals initialised from another variable (`const auto keep = static_cast<...>(validEnd)`)
+    cur, cfr, aliases = size_arg, rz.frame, []
+    for _ in range(8):
+        if cur is None or cur.get("k") != "var":
+            break
+        aliases.append((cfr, cur.get("d")))
+        if cur.get("parm") is not None:
+            if cfr.parent is None or cur["parm"] >= len(cfr.args):
+                break
+            cur, cfr = _conv_strip(cfr.args[cur["parm"]]), cfr.parent
+            continue
+        dv = local_decl(cfr.fn, cur.get("d"))
+        init = _conv_strip(dv["init"]) if dv and dv.get("init") is not None else None
+        if init is not None and init.get("k") == "var" and not _assignments(cfr.fn.stmts(), cur.get("d")):
+            cur = init
+            continue
+        break
+    vn = cur["n"] if cur is not None and cur.get("k") == "var" else None
     r.expect(vn is not None, f, rz, "cut position", "the log is cut at `%s`, not at a recorded end-of-record offset" % show(size_arg), okdesc="log cut at %s" % vn)
     if vn is None:
         return
+    # the replayed log: the input stream opened on _logPath; its reads
+    logvar = [(e.frame, dv) for e in v.stmts() if e.node.get("k") == "decl" for dv in e.node["vars"]
+              if (dv.get("init") or {}).get("k") == "ctor" and dv["init"].get("cls") == "std::basic_ifstream" and dv["init"].get("args") and path_name(dv["init"]["args"][0], e.frame) == "_logPath"]
+    if len(logvar) != 1:
+        raise AnalysisBroken("load(): %d input streams on _logPath (expected the one the replay reads)" % len(logvar))
+    lfr, ldv = logvar[0]
+
+    def on_log(n, fr):
+        """the receiver of member call n is the replayed stream (also when a helper got it as a reference parameter)"""
+        o, ofr = vresolve(n.get("obj") or {}, fr)
+        return o is not None and o.get("k") == "var" and o.get("d") == ldv["d"] and ofr is lfr
     # the offset is only advanced after a record was read completely (both reads succeeded)
-    asg = [e for e in f.stmts() if e.node.get("k") in ("bin", "opcall") and e.node.get("op", "").endswith("=") and e.node.get("op") not in ("==", "!=", "<=", ">=") and
-           strip_wrappers(e.node.get("lhs") or e.node["args"][0]).get("n") == vn] + \
-          [e for e in f.stmts() if e.node.get("k") == "un" and ("++" in e.node["op"] or "--" in e.node["op"]) and strip_wrappers(e.node["v"]).get("n") == vn]
-    reads = [e for e in f.stmts() if e.node.get("k") == "mcall" and last(e.node.get("callee", "")) == "read" and (e.node.get("obj") or {}).get("k") == "var" and e.node["obj"]["n"] == "log"]
+    asg = _assignments([e for e in v.stmts() if e.frame is cfr], cur.get("d"))
+    reads = [e for e in v.stmts() if e.node.get("k") == "mcall" and last(e.node.get("callee", "")) == "read" and on_log(e.node, e.frame)]
+    # shapes that are not followed (a refusal, not a verdict): the offset is what a function returned, or the stream is handed to
+    # a function that was not expanded (its reads are not seen)
+    expanded_calls = {id(c.node) for (c, g) in v.expanded}
+    dv0 = local_decl(cfr.fn, cur.get("d")) if cur.get("parm") is None else None
+    i0 = _conv_strip(dv0["init"]) if dv0 and dv0.get("init") is not None else None
+    if not asg and i0 is not None and i0.get("k") in ("call", "mcall") and last(i0.get("callee", "")) != "tellg":
+        raise AnalysisBroken("load(): the cut offset `%s` is the value returned by %s — where it was recorded is not followed" % (vn, short(i0.get("callee", "?"))))
+    away = [x for e in v.stmts() if "root" in e.raw for x in walk(e.node) if x.get("k") in ("call", "mcall", "ctor") and id(x) not in expanded_calls and
+            any(same_var(*vresolve(a, e.frame), {"k": "var", "d": ldv["d"]}, lfr) for a in x.get("args", []))]
+    if len(reads) != 2 and away:
+        raise AnalysisBroken("load(): the replayed stream is handed to %s, whose reads are not followed" % ", ".join(sorted({short(x.get("callee") or x.get("cls") or "?") for x in away})))
     r.instance()
     ok = len(asg) >= 1 and len(reads) == 2
     for a in asg:
-        if "tellg" not in show(a.node):
+        if not any(x.get("k") == "mcall" and last(x.get("callee", "")) == "tellg" and on_log(x, a.frame) for x in walk(a.node)):
             ok = False
         # not reachable through the failing edge of either read
-        for b in f.blocks.values():
+        for b in v.blocks.values():
             c = b.cond
             if c is not None and any(any(x is rd.node for x in walk(c)) for rd in reads):
-                # conditions are `!log.read(...)`: true edge = failed
-                neg = c.get("k") in ("un", "opcall") and c.get("op") == "!"
-                fail_edge = 0 if neg else 1
-                s = b.succs[fail_edge]
-                if s is not None and search(f, ("block", s), lambda x, a=a: x is a, stop=lambda x: x in reads, eh=False) is not None:
+                op, st, sf = branch_ok(b)       # the stream converts to true when the read succeeded
+                if sf is not None and search(v, ("block", sf), lambda x, a=a: x is a, stop=lambda x: x in reads, eh=False) is not None:
                     ok = False
-        if not all(elem_dominates(f, rd, a) for rd in reads):
+        if not all(elem_dominates(v, rd, a, eh=False) for rd in reads):
             ok = False      # written at a point that is not behind both reads of the same iteration
     r.expect(ok, f, asg[0] if asg else None, "end-of-record offset", "%s is not advanced exactly when a record was read completely (after both reads succeeded)" % vn,
              okdesc="%s = tellg() after a complete record" % vn)
     # every way out of the replay loop reaches the cut decision (no early return between loop and cut), and an incomplete
     # read never skips it
     r.instance()
-    after_loop = [b for b in f.blocks.values() if elem_after(f, reads, b) and not any(search(f, ("block", b.id), lambda x, rd=rd: x is rd, eh=False) is not None for rd in reads)]
-    tests = [b for b in after_loop if b.cond is not None and (any(a in show(b.cond) for a in aliases) or show(b.cond).replace("!", "").replace(" ", "").startswith("ec")) and
-             search(f, ("block", b.id), lambda x: x is rz, eh=False) is not None]
+    behind = set.union(*[reach_blocks(v, rd) for rd in reads]) if reads else set()
+    to_read = {bid for bid in behind if any(search(v, ("block", bid), lambda x, rd=rd: x is rd, eh=False) is not None for rd in reads)}
+    after_loop = [v.blocks[bid] for bid in behind - to_read]
+
+    def reaches_cut(bid):
+        return bid is not None and search(v, ("block", bid), lambda x: x is rz, eh=False) is not None
+    # the branches behind the loop that DECIDE whether the cut is reached: one successor can reach it, another cannot (a loop of
+    # the expiry sweep between the replay and the cut reaches it on both edges and decides nothing)
+    to_cut = {b.id for b in after_loop if b.cond is not None and len({reaches_cut(s) for s in b.succs}) == 2}
+    alias_set = {(id(fr), d) for (fr, d) in aliases}
+
+    def cond_vars(b):
+        return [(x, b.frame) for x in walk(b.cond) if x.get("k") == "var"]
+
+    def is_ec(x):
+        return "error_code" in (x.get("t") or "")
+
+    def is_log_size(x, fr):
+        dv = local_decl(fr.fn, x.get("d")) if x.get("parm") is None else None
+        i = strip_wrappers(dv["init"]) if dv and dv.get("init") is not None else None
+        return i is not None and i.get("k") == "call" and i.get("callee") == "std::filesystem::file_size" and i.get("args") and path_name(i["args"][0], fr) == "_logPath"
+    tests = [b for b in after_loop if b.cond is not None and b.id in to_cut and any((id(fr), x.get("d")) in alias_set or is_ec(x) for (x, fr) in cond_vars(b))]
+    tset = {b.id for b in tests}
     w = None
     for rd in reads:
-        w = w or search(f, rd, "exit", stop=lambda x: any(x in b.elems for b in tests) or (x.kind == "stmt" and x.node.get("k") == "throw"), eh=False)
-    r.expect(bool(tests) and w is None, f, rz, "cut skipped", "a path from the replay loop leaves load() without deciding whether the log tail must be cut", witness=witness_str(f, w),
+        w = w or search(v, rd, "exit", stop=lambda x: x.block.id in tset or (x.kind == "stmt" and x.node.get("k") == "throw"), edge_ok=lambda b, si: b.id not in tset, eh=False)
+    r.expect(bool(tests) and w is None, f, rz, "cut skipped", "a path from the replay loop leaves load() without deciding whether the log tail must be cut", witness=witness_str(v, w),
              okdesc="every exit of the replay loop reaches the cut decision")
-    # the decision does not depend on WHY the loop ended
+    # the decision does not depend on WHY the loop ended: behind the loop, whether the cut is reached is decided only by the
+    # recorded offset, the file's size (a value std::filesystem::file_size(_logPath) initialised) and error codes
     r.instance()
-    conds = [show(b.cond).replace(" ", "") for b in tests]
-    guard_vars = set()
-    for b in after_loop:
-        if b.cond is not None and search(f, ("block", b.id), lambda x: x is rz, eh=False) is not None:
-            for x in walk(b.cond):
-                if x.get("k") == "var":
-                    guard_vars.add(x["n"])
-    r.expect(guard_vars <= aliases | {"ec", "logSize"}, f, rz, "cut depends on loop exit reason", "whether the tail is cut depends on %s: every way the replay can stop (short length prefix, short body, bad length) "
-             "leaves bytes that must be cut" % sorted(guard_vars - aliases - {"ec", "logSize"}), okdesc="cut decided only by offset < file size")
+    other = sorted({x["n"] for b in after_loop if b.cond is not None and b.id in to_cut for (x, fr) in cond_vars(b)
+                    if not ((id(fr), x.get("d")) in alias_set or is_ec(x) or is_log_size(x, fr))})
+    r.expect(not other, f, rz, "cut depends on loop exit reason", "whether the tail is cut depends on %s: every way the replay can stop (short length prefix, short body, bad length) "
+             "leaves bytes that must be cut" % other, okdesc="cut decided only by offset < file size")
     # constructor: load before the append-mode open
     ct = fb.func(KV + "::<ctor>")
-    ld = [e for e in ct.stmts() if e.node.get("k") == "mcall" and e.node.get("callee") == KV + "::load"]
-    op = [e for e in ct.stmts() if e.node.get("k") == "mcall" and e.node.get("callee") == KV + "::openLogFile"]
+    vc = view_of(ctx, ct)
+    ld = [e for e in vc.stmts() if e.node.get("k") == "mcall" and e.node.get("callee") == KV + "::load"]
+    op = [e for e in vc.stmts() if e.node.get("k") == "mcall" and e.node.get("callee") == KV + "::openLogFile"]
     r.instance()
-    r.expect(ld and op and elem_dominates(ct, ld[0], op[0]), ct, None, "open before load", "the constructor opens the log for appending before load() has cut the torn tail", okdesc="ctor: load() ≺ openLogFile()")
+    r.expect(ld and op and all(any(elem_dominates(vc, l, o, eh=False) for l in ld) for o in op), ct, None, "open before load", "the constructor opens the log for appending before load() has cut the torn tail", okdesc="ctor: load() ≺ openLogFile()")
     # a failed cut is an error, not ignored
     r.instance()
-    ect = [b for b in f.blocks.values() if b.cond is not None and show(b.cond).replace(" ", "").startswith("ec") and b.elems and elem_dominates(f, rz, b.elems[-1])]
-    r.expect(bool(ect) and any(b.succs[0] is not None and search(f, ("block", b.succs[0]), "exit", stop=lambda x: x.kind == "stmt" and x.node.get("k") == "throw", eh=False) is None for b in ect), f, rz,
-             "cut failure ignored", "a failing truncation is ignored and appending continues behind the torn tail", okdesc="failed cut ⇒ throw")
-
-
-def elem_after(f, elems, block):
-    return any(search(f, e, lambda x: x in block.elems, eh=False) is not None for e in elems)
+    rec = ec_arg(rz.node)
+    ect = [b for b in v.blocks.values() if b.frame is rz.frame and b.cond is not None and rec is not None and same_var(is_ec_test(b.cond), b.frame, rec, rz.frame) and b.elems and elem_dominates(v, rz, b.elems[-1], eh=False)]
+    okc = False
+    for b in ect:
+        c, st, sf = common.branch(b)
+        if st is not None and search(v, ("block", st), "exit", stop=lambda x: x.kind == "stmt" and x.node.get("k") == "throw", eh=False) is None:
+            okc = True
+    r.expect(okc, f, rz, "cut failure ignored", "a failing truncation is ignored and appending continues behind the torn tail", okdesc="failed cut ⇒ throw")
 
 
 def r7(ctx, r):
     fb = ctx.fb()
-    sv = fb.func(JS + "::saveToFile", file_suffix=JSF)
-    sites = [(e, kind, path) for (g, e, kind, path, mode) in file_sites(fb, (JSF,)) if g is sv]
+    sv0 = fb.func(JS + "::saveToFile", file_suffix=JSF)
+    sv = view_of(ctx, sv0)
+    sites = [(e, kind, path) for (e, kind, path, mode) in view_sites(sv)]
     opens = [e for (e, k, p) in sites if k == "ofstream"]
     rens = [e for (e, k, p) in sites if k == "rename"]
     r.instance()
     if not (opens and rens):
-        r.fail(sv, None, "in-place rewrite", "JsonFileStore::saveToFile does not write a temp file and rename it over the store: the durable file is truncated in place")
+        r.fail(sv0, None, "in-place rewrite", "JsonFileStore::saveToFile does not write a temp file and rename it over the store: the durable file is truncated in place")
         return
     r.ok("saveToFile: temp file + rename")
-    fv = None
-    for e in sv.stmts():
-        if e.node.get("k") == "decl":
-            for v in e.node["vars"]:
-                if v.get("init") is opens[0].node:
-                    fv = v
-    writes = [e for e in sv.stmts() if e.node.get("k") in ("opcall", "mcall") and (e.node.get("op") == "<<" or last(e.node.get("callee", "")) == "write") and fv and fv["n"] in show(e.node)]
-    closes = [e for e in sv.stmts() if e.node.get("k") == "mcall" and last(e.node.get("callee", "")) in ("close",) and (e.node.get("obj") or {}).get("n") == (fv or {}).get("n")] + \
-             [e for e in sv.elems() if e.kind == "dtor" and fv and e.raw.get("d") == fv["d"]]
-    goods = [b for b in sv.blocks.values() if b.cond is not None and fv and (fv["n"] + ".good()" in show(b.cond) or fv["n"] + ".fail()" in show(b.cond) or show(b.cond).replace("!", "") in (fv["n"] + ".operator bool()",))]
+    fv = stream_var_of(sv, opens[0])
+    ffr = opens[0].frame
+
+    def on_file(n):
+        """n names the temp stream variable"""
+        n = strip_wrappers(n or {})
+        return fv is not None and n.get("k") == "var" and n.get("d") == fv["d"]
+    writes = [e for e in sv.stmts() if e.frame is ffr and e.node.get("k") in ("opcall", "mcall") and (e.node.get("op") == "<<" or last(e.node.get("callee", "")) == "write") and
+              any(on_file(x) for x in walk(e.node))]
+    closes = [e for e in sv.stmts() if e.frame is ffr and e.node.get("k") == "mcall" and last(e.node.get("callee", "")) in ("close",) and on_file(e.node.get("obj"))] + \
+             [e for e in sv.elems() if e.kind == "dtor" and e.frame is ffr and fv and e.raw.get("d") == fv["d"]]
+
+    def state_expr(c):
+        """(True if the expression is true when the stream is good / False if true when it failed) for good() / fail() / bad() /
+        operator bool / operator! on the temp stream under any number of `!`; None for anything else"""
+        c, odd = _neg_strip(c)
+        if c is None or c.get("k") not in ("mcall", "opcall"):
+            return None
+        nm = last(c.get("callee", ""))
+        o = c.get("obj") if c.get("k") == "mcall" else (c.get("args") or [None])[0]
+        if not on_file(o) or nm not in ("good", "fail", "bad", "operator bool", "operator!"):
+            return None
+        return (nm in ("good", "operator bool")) != odd
+    # the tests of the stream state: a branch on the state itself (evaluated at the branch), or on a `const bool` local that was
+    # initialised with the state (evaluated at the declaration — that is where it must be behind the close)
+    goods = []      # (block, element at which the state is read, condition true ⇒ stream good?)
+    for b in sv.blocks.values():
+        if b.frame is not ffr or b.cond is None or len(b.succs) != 2:
+            continue
+        c, st, sf = common.branch(b)
+        pol = state_expr(c)
+        if pol is not None and b.elems:
+            goods.append((b, b.elems[-1], pol, st, sf))
+        elif c is not None and c.get("k") == "var" and c.get("parm") is None:
+            for e in sv.stmts():
+                if e.frame is ffr and e.node.get("k") == "decl":
+                    for dv in e.node["vars"]:
+                        if dv.get("d") == c.get("d") and (dv.get("t") or "").strip() in ("const bool", "bool const") and dv.get("init") is not None and state_expr(dv["init"]) is not None:
+                            goods.append((b, e, state_expr(dv["init"]), st, sf))
     for ren in rens:
         r.instance()
         ok = bool(writes) and all(search(sv, ("entry",), lambda x: x is ren, stop=lambda x, w=w: x is w, eh=False) is None for w in writes)
-        r.expect(ok, sv, ren, "rename before write", "the temp file is renamed over the store before the new contents were written", okdesc="write ≺ rename")
+        r.expect(ok, sv0, ren, "rename before write", "the temp file is renamed over the store before the new contents were written", okdesc="write ≺ rename")
         r.instance()
         ok = bool(closes) and search(sv, ("entry",), lambda x: x is ren, stop=lambda x: x in closes, eh=False) is None
-        r.expect(ok, sv, ren, "rename before close", "the temp file is renamed over the store while its stream is still open: small contents can still sit in the stream buffer, so a crash right after the "
+        r.expect(ok, sv0, ren, "rename before close", "the temp file is renamed over the store while its stream is still open: small contents can still sit in the stream buffer, so a crash right after the "
                  "rename leaves an empty store file", okdesc="stream closed ≺ rename")
         r.instance()
         ok = False
-        for b in goods:
-            good_edge = 0 if not show(b.cond).startswith("!") and ".fail()" not in show(b.cond) else 1
-            bad_edge = 1 - good_edge
-            s = b.succs[bad_edge]
-            if (s is None or search(sv, ("block", s), lambda x: x is ren, eh=False) is None) and closes and any(search(sv, c, lambda x, b=b: x in b.elems, eh=False) is not None for c in closes if c.kind == "stmt"):
+        for (b, at, pol, st, sf) in goods:
+            # every path to the rename takes the 'stream is good' edge of a test whose value was read behind the close (a test that
+            # only follows the rename, or whose failing edge merely does not loop back to it, protects nothing)
+            bad, good = (sf, st) if pol else (st, sf)
+            gi = [i for i, x in enumerate(b.succs) if x == good]
+            if good is not None and good != bad and len(gi) == 1 and dominated_by_edge(sv, ren, b, gi[0], eh=False) and \
+                    (bad is None or search(sv, ("block", bad), lambda x: x is ren, eh=False) is None) and any(c.kind == "stmt" and (c is at or elem_dominates(sv, c, at, eh=False)) for c in closes):
                 ok = True
-        r.expect(ok, sv, ren, "rename without state check", "the rename is reachable although the stream reported a write/close failure (or the state is tested before close flushed the buffer)",
+        r.expect(ok, sv0, ren, "rename without state check", "the rename is reachable although the stream reported a write/close failure (or the state is tested before close flushed the buffer)",
                  okdesc="good() tested after close, failure ⇒ no rename")
 
 
@@ -610,3 +1230,14 @@ def run(ctx, ck):
     ck.run_rule("C11-R8", "the log replay admits every record size the setters accept (writer/reader size agreement)", "table agreement over the extracted constants", lambda r: r8(ctx, r))
     ck.run_rule("C11-R6", "a torn tail is cut before new records follow it", "A2 + dataflow shape", lambda r: r6(ctx, r))
     ck.run_rule("C11-R7", "whole-file stores are replaced atomically", "A10 + A2", lambda r: r7(ctx, r))
+
+
+# Rules whose verdict stays valid when code is moved into (or a change is made inside) a helper the inventory has never seen:
+FOLLOWS_HELPERS = {
+    "C11-R1": "every file-mutating call of both store headers is enumerated wherever it stands; one in a private helper is attributed to the callers (parameters read as their arguments)",
+    "C11-R3": "decided over compactLocked with every same-class callee expanded in place (View); a path parameter of a helper is read at the call",
+    "C11-R4": "the steps are taken from the expanded view and the lock set of a helper is the intersection over its call sites (LockAnalysis)",
+    "C11-R5": "guard and CRC dominance are decided on the expanded view with boolean helpers correlated to the branch they decide; the window clause refuses by itself when the cursor is handed to a function or a guard sits in a helper it cannot correlate",
+    "C11-R6": "decided over load() / the constructor with same-class callees expanded; the cut position is followed through helper parameters",
+    "C11-R7": "decided over saveToFile with same-class callees expanded; the stream state is followed through a const bool local",
+}
